@@ -11,6 +11,7 @@ import (
 	"crypto/sha256"
 	"encoding/binary"
 	"encoding/hex"
+	"encoding/json"
 	"fmt"
 	"os"
 	"path/filepath"
@@ -31,6 +32,8 @@ import (
 	"github.com/nspcc-dev/neo-go/pkg/neotest"
 	"github.com/nspcc-dev/neo-go/pkg/smartcontract"
 	"github.com/nspcc-dev/neo-go/pkg/smartcontract/callflag"
+	"github.com/nspcc-dev/neo-go/pkg/smartcontract/manifest"
+	"github.com/nspcc-dev/neo-go/pkg/smartcontract/nef"
 	"github.com/nspcc-dev/neo-go/pkg/smartcontract/trigger"
 	"github.com/nspcc-dev/neo-go/pkg/util"
 	"github.com/nspcc-dev/neo-go/pkg/vm/stackitem"
@@ -163,9 +166,33 @@ func Priv(s neotest.Signer) *keys.PrivateKey {
 // Compile compiles contracts/<name> of the repository working tree. The
 // contract hash is recomputed for this chain's deployer (neotest caches the
 // compilation result including the hash of the first sender).
+//
+// With VERIF_ARTIFACTS=embedded the shipped contract.nef/manifest.json of the
+// working tree are used instead (differential replay of C15).
 func (c *Chain) Compile(name string) *neotest.Contract {
 	dir := filepath.Join(RepoRoot(), "contracts", name)
+	if os.Getenv("VERIF_ARTIFACTS") == "embedded" {
+		return c.Embedded(name)
+	}
 	return c.CompileDir(dir)
+}
+
+// Embedded loads contracts/<name>/contract.nef and manifest.json of the working tree.
+func (c *Chain) Embedded(name string) *neotest.Contract {
+	dir := filepath.Join(RepoRoot(), "contracts", name)
+	nb, err := os.ReadFile(filepath.Join(dir, "contract.nef"))
+	require.NoError(c.T, err)
+	ne, err := nef.FileFromBytes(nb)
+	require.NoError(c.T, err)
+	mb, err := os.ReadFile(filepath.Join(dir, "manifest.json"))
+	require.NoError(c.T, err)
+	m := new(manifest.Manifest)
+	require.NoError(c.T, json.Unmarshal(mb, m))
+	return &neotest.Contract{
+		Hash:     state.CreateContractHash(c.E.Validator.ScriptHash(), ne.Checksum, m.Name),
+		NEF:      &ne,
+		Manifest: m,
+	}
 }
 
 // CompileDir compiles an arbitrary contract directory holding config.yml.
@@ -340,6 +367,41 @@ func (c *Chain) CallAs(h util.Uint160, signers []neotest.Signer, method string, 
 		items[i] = expand(it)
 	}
 	return items, nil
+}
+
+// CallRaw is Call without the in-place expansion of iterators: an iterator result is
+// returned as an Interop item holding the expanded values (what an RPC session would traverse).
+func (c *Chain) CallRaw(h util.Uint160, method string, args ...any) ([]stackitem.Item, []bool, error) {
+	items, err := c.Call(h, method, args...)
+	if err != nil {
+		return nil, nil, err
+	}
+	// Call has replaced iterators by arrays; find out which results were iterators
+	wasIter := make([]bool, len(items))
+	script, err := smartcontract.CreateCallScript(h, method, args...)
+	if err != nil {
+		return nil, nil, err
+	}
+	tx := transaction.New(script, 0)
+	tx.ValidUntilBlock = c.E.Chain.BlockHeight() + 1
+	b := c.E.NewUnsignedBlock(c.T, tx)
+	ic, err := c.E.Chain.GetTestVM(trigger.Application, tx, b)
+	if err != nil {
+		return nil, nil, err
+	}
+	defer ic.Finalize()
+	ic.VM.LoadWithFlags(tx.Script, callflag.All)
+	if err = ic.VM.Run(); err != nil {
+		return nil, nil, err
+	}
+	for i, it := range ic.VM.Estack().ToArray() {
+		if it.Type() == stackitem.InteropT {
+			if _, ok := it.Value().(*storage.Iterator); ok && i < len(wasIter) {
+				wasIter[i] = true
+			}
+		}
+	}
+	return items, wasIter, nil
 }
 
 func expand(it stackitem.Item) stackitem.Item {
